@@ -473,7 +473,7 @@ def read_template(unit):
     return ttext
 
 
-def generate(unit, probe=False, repo=None):
+def generate(unit, probe=False, repo=None, drop_hints=()):
     repo = repo or REPO
     tpath = os.path.join(VERIF, "units", unit + ".rs.in")
     ttext = read_template(unit)
@@ -580,7 +580,8 @@ def generate(unit, probe=False, repo=None):
         opts = {
             "ret": b.ret, "clauses": b.clauses.rstrip("\n"), "loops": {k: v.rstrip("\n") for k, v in b.loops.items()}, "loopvars": dict(b.loopvars),
             "closures": {k: tuple(v) for k, v in b.closures.items()},
-            "hints": [tuple(h[:2]) + (h[2].rstrip("\n"), h[3]) for h in b.hints],
+            "hints": ([] if (b.rename or "") in drop_hints or b.spec.split(":")[-1] in drop_hints
+                      else [tuple(h[:2]) + (h[2].rstrip("\n"), h[3]) for h in b.hints]),
             "body_first": b.first.rstrip("\n"), "subst": b.subst,
             "keep_pub": "keep_pub" in b.flags, "drop_derive": "drop_derive" in b.flags,
             "rename": b.rename,
